@@ -70,6 +70,7 @@ pub fn run(tier: Tier) -> i32 {
             };
             let h0 = &base.0[1];
             let hb = &fr[1];
+            rep.outcome(hash_f64s(&hb[..hb.len().min(64)]));
             if hb.iter().any(|x| !x.is_finite()) {
                 rep.violation("non-finite", "post-filtered pulse response is not finite", rp);
                 continue;
